@@ -5,7 +5,7 @@ Check (C05_write_task_history_ok) : (forall persistent ss, log_ok persistent (w_
 Print Assumptions C05_write_task_history_ok.
 Check (C05_crash_anywhere) : (forall persistent n l, log_ok persistent l = true -> log_ok persistent (firstn n l) = true).
 Print Assumptions C05_crash_anywhere.
-Check (C05_restart_never_older_value) : (forall persistent l n r i x, log_ok persistent l = true -> persistent i = true -> no_delete i l -> In (LSentV r i x) (firstn n l) -> exists before after, puts i (firstn n l) = before ++ x :: after /\ restored_value (replay (firstn n l)) i = last (x :: after) 0%Z).
+Check (C05_restart_never_older_value) : (forall persistent l n r i x, log_ok persistent l = true -> persistent i = true -> no_delete i l -> In (LSentV r i x) (firstn n l) -> (exists before after, puts i (firstn n l) = before ++ x :: after /\ restored_value (replay (firstn n l)) i = last (x :: after) 0%Z) \/ x = 0%Z).
 Print Assumptions C05_restart_never_older_value.
 Check (C05_restart_never_older_map) : (forall persistent l n r i o, log_ok persistent l = true -> persistent i = true -> In (LSentM r i o) (firstn n l) -> In o (mops i (firstn n l)) /\ restored_map (replay (firstn n l)) i = fold_left apply_mop (mops i (firstn n l)) []).
 Print Assumptions C05_restart_never_older_map.
